@@ -36,6 +36,7 @@ type ConcCfg struct {
 	FileFocus bool // all clients hammer one file (SETATTR/WRITE/GETATTR/READ)
 	HalfFreed bool // start from a server that was stopped in the middle of a big free: the first allocations are handed a half-freed inode
 	AbortHammer bool // C14: many failing (aborting) requests next to lookups/creates on the same directory; dead handles next to allocations
+	Evict    bool // one client walks over > 100 cold inodes (the inode cache holds 100) while the others work on a few files and one directory
 	DirMoves bool // directories are moved between parents concurrently (cycles, '..' of the moved directory)
 	Focus    bool // namespace races on two names in one directory whose children have smaller numbers
 	Procs    int
@@ -202,6 +203,29 @@ func genConcOp(r *Rng, w *world, mine *[][]byte, uid *uint64, cfg ConcCfg) *Op {
 			*uid++
 			atomic.AddInt64(&w.frontier, 1)
 			return &Op{K: OpCreate, H: w.dirs[0], Name: fmt.Sprintf("n%d", *uid)}
+		}
+	}
+	if cfg.Evict {
+		d := w.dirs[len(w.dirs)-1]
+		f := w.files[r.Intn(len(w.files))]
+		switch x := r.Intn(100); {
+		case x < 20: // fails after it has edited the cached directory
+			return &Op{K: OpRename, H: d, Name: w.names[r.Intn(2)], H2: d, Name2: longName(200, 'x')}
+		case x < 35:
+			return &Op{K: OpCreate, H: d, Name: w.names[r.Intn(2)]}
+		case x < 45:
+			return &Op{K: OpLookup, H: d, Name: w.names[r.Intn(2)]}
+		case x < 60:
+			return &Op{K: OpGetattr, H: f}
+		case x < 75:
+			*uid++
+			return &Op{K: OpWrite, H: f, Off: r.Pick([]uint64{0, 100, 4096}), Count: 100, DataLen: 100, Uid: *uid, Stable: r.Intn(3)}
+		case x < 85:
+			return &Op{K: OpSetattr, H: f, SetSize: true, Size: r.Pick([]uint64{0, 100, 5000})}
+		case x < 92:
+			return &Op{K: OpRemove, H: d, Name: w.names[r.Intn(2)]}
+		default:
+			return &Op{K: OpRead, H: f, Off: 0, Count: 8192}
 		}
 	}
 	if cfg.DirMoves {
@@ -475,6 +499,24 @@ func runOneHistory(cfg ConcCfg, seed uint64, cas, h int, res *ConcRes) {
 			}
 		}
 	}
+	if cfg.Evict {
+		// more files than the inode cache holds; the caches are cold when the
+		// history starts; client 0 reads the attributes of all of them
+		many := mk(OpMkdir, srv.Root, "many")
+		var sweep []*Op
+		for i := 0; many != nil && i < 115; i++ {
+			if fh := mk(OpCreate, many, fmt.Sprintf("m%03d", i)); fh != nil {
+				sweep = append(sweep, &Op{K: OpGetattr, H: fh})
+			}
+		}
+		if rng.Intn(2) == 0 {
+			// in the middle of the sweep: the files the others work on
+			for i, f := range w.files {
+				sweep = append(sweep[:40+i], append([]*Op{{K: OpGetattr, H: f}}, sweep[40+i:]...)...)
+			}
+		}
+		w.first = [][]*Op{sweep}
+	}
 	uid := uint64(1000)
 	for _, f := range w.files {
 		uid++
@@ -511,7 +553,7 @@ func runOneHistory(cfg ConcCfg, seed uint64, cas, h int, res *ConcRes) {
 		s.srv.N.Crash()
 		s.srv = StartSrv(s.srv.D, s.srv.Opts)
 		srv = s.srv
-	} else if rng.Intn(3) == 0 {
+	} else if cfg.Evict || rng.Intn(3) == 0 {
 		s.restart() // cold caches
 		srv = s.srv
 	}
@@ -562,7 +604,11 @@ func runOneHistory(cfg ConcCfg, seed uint64, cas, h int, res *ConcRes) {
 			mon.SetClient(c + 1)
 			var mine [][]byte
 			cuid := uint64(c+1) * 100000
-			for i := 0; i < cfg.OpsPer; i++ {
+			nops := cfg.OpsPer
+			if c < len(w.first) && len(w.first[c]) > nops {
+				nops = len(w.first[c])
+			}
+			for i := 0; i < nops; i++ {
 				op := genConcOp(r, w, &mine, &cuid, cfg)
 				if c < len(w.first) && i < len(w.first[c]) {
 					op = w.first[c][i]
@@ -646,6 +692,24 @@ func runOneHistory(cfg ConcCfg, seed uint64, cas, h int, res *ConcRes) {
 		srv = StartSrv(d, srv.Opts)
 		mon.Reset(0, true)
 	}
+	// ---- final state as one read-only operation -------------------------
+	got, werr := walkTree(srv.API, srv.Root, nil)
+	for _, m := range werr.Msgs {
+		addV("lin", "final walk: %s", m)
+	}
+	t := tick()
+	hist = append(hist, &histOp{Client: cfg.Clients, Kind: "final", Dump: dumpString(got), Call: t, Ret: tick()})
+	if cfg.HalfFreed {
+		// a half-freed inode legitimately keeps its blocks until its number
+		// is handed out again (C05): if no creation of the history succeeded
+		// nobody has touched it yet.  Hand out the lowest free numbers now.
+		for i := 0; i < 3; i++ {
+			doOp(srv.API, &Op{K: OpCreate, H: srv.Root, Name: fmt.Sprintf("zz-reuse%d", i)})
+		}
+		for i := 0; i < 3; i++ {
+			doOp(srv.API, &Op{K: OpRemove, H: srv.Root, Name: fmt.Sprintf("zz-reuse%d", i)})
+		}
+	}
 	srv.WaitIdle()
 	fr := srv.Fsck(FsckOpts{CheckCaches: true})
 	if len(fr.Errs) > 0 {
@@ -657,13 +721,6 @@ func runOneHistory(cfg ConcCfg, seed uint64, cas, h int, res *ConcRes) {
 	if len(fr.CacheErrs) > 0 {
 		addV("cache", "after the history: %s\nhistory:\n%s", joinLines(fr.CacheErrs[:minInt(4, len(fr.CacheErrs))]), renderHistory(hist))
 	}
-	// ---- final state as one read-only operation -------------------------
-	got, werr := walkTree(srv.API, srv.Root, nil)
-	for _, m := range werr.Msgs {
-		addV("lin", "final walk: %s", m)
-	}
-	t := tick()
-	hist = append(hist, &histOp{Client: cfg.Clients, Kind: "final", Dump: dumpString(got), Call: t, Ret: tick()})
 	if err := srv.TransportErr(); err != nil {
 		addV("lin", "transport error: %v", err)
 	}
